@@ -13,8 +13,9 @@
   the caller (`sqrtF`, `.fn f`).  The model follows the code after the repairs 4eb1789, eb24e6a, a498630,
   aeea172, 363ef5e, 1259250 (lame_parameters (ν,E) and (λ,E) branches; denormalize_flow gets the grid's
   `align_corners`; `reduction="sum"` of inverse_consistency_loss is the sum and the masked mean counts the
-  cropped mask; elasticity_loss accumulates on the shape of the derivatives).  Still as coded: the
-  zero-padded prewitt/sobel averaging and the replicate-padded stencils (F-17d family).
+  cropped mask; elasticity_loss accumulates on the shape of the derivatives).  The prewitt / sobel
+  averaging is the replicate-padded one of Model/FD.lean (repair of F-17d).  Still as coded: the replicate-padded
+  forward / backward / central stencils (F-17d', F-17d'').
 -/
 import Deepali.Model.FlowCalc
 import Deepali.Model.Losses
